@@ -13,6 +13,7 @@ import (
 	"net"
 	"time"
 
+	"github.com/attestantio/dirk/core"
 	grpcapi "github.com/attestantio/dirk/services/api/grpc"
 	"github.com/attestantio/dirk/services/checker"
 	sendergrpc "github.com/attestantio/dirk/services/sender/grpc"
@@ -141,8 +142,22 @@ func (c *NetCluster) Close() {
 
 // Generate asks node `initiator` to generate a distributed account, as a client with the default identity.
 func (c *NetCluster) Generate(initiator uint64, account string, threshold, participants uint32) ([]byte, error) {
+	pk, _, err := c.GenerateParts(initiator, account, threshold, participants)
+	return pk, err
+}
+
+// GenerateParts is Generate, also returning the participants the instance reports.
+func (c *NetCluster) GenerateParts(initiator uint64, account string, threshold, participants uint32) ([]byte, []*core.Endpoint, error) {
 	n := c.Nodes[initiator]
 	creds := &checker.Credentials{Client: DefaultClient, RequestID: "gen", IP: "10.0.0.1"}
-	pk, _, err := n.Rig.Process.OnGenerate(n.Rig.Ctx, creds, account, []byte("pass"), threshold, participants)
-	return pk, err
+	return n.Rig.Process.OnGenerate(n.Rig.Ctx, creds, account, []byte("pass"), threshold, participants)
+}
+
+// View presents the instances as a Cluster (for oracles that inspect the instances; it cannot send or intercept).
+func (c *NetCluster) View() *Cluster {
+	v := &Cluster{Nodes: map[uint64]*Node{}, IDs: append([]uint64{}, c.IDs...)}
+	for id, n := range c.Nodes {
+		v.Nodes[id] = &Node{ID: id, Name: n.Name, Rig: n.Rig, cluster: v}
+	}
+	return v
 }
